@@ -255,9 +255,13 @@ func (s *SoftwrapScanner) Scan(ctx vxfw.DrawContext) bool {
 		// return
 		if br {
 			if uniseg.HasTrailingLineBreak(seg) {
-				_, l := utf8.DecodeLastRune(seg)
+				r, l := utf8.DecodeLastRune(seg)
 				// trim the trailing rune
 				seg = seg[:len(seg)-l]
+				// "\r\n" is one hard break: trim the "\r" as well
+				if r == '\n' && bytes.HasSuffix(seg, []byte("\r")) {
+					seg = seg[:len(seg)-1]
+				}
 			}
 			s.token = append(s.token, seg...)
 			return true
